@@ -45,7 +45,7 @@ MakeUpV(e) ==
   LET ps == e.ps
       got == {<<e.made[i].np, Rng(e.made[i].kw)>> : i \in DOMAIN e.made}
       nnamed == Cardinality(Named(ps))
-      want == {<<np, kw>> : np \in 0..(nnamed + e.extra), kw \in SUBSET NamedNames(ps)}
+      want == {<<np, kw>> : np \in 0..(nnamed + e.extra), kw \in SUBSET AllNames(ps)}      \* star parameters included: their names used as keywords are ways to call too
   IN Clause(~(want \subseteq got), "C20_MakeUpCallsigsComplete")
 
 (* textual round trip: what s(text) / func_from_sig gave back against the signature the text was rendered from *)
